@@ -13,21 +13,27 @@ NOT_BUILT = "check not built yet in this round (claimed by DESIGN.md; " \
 
 CHECKS = {
     "C20": {
-        "text": "NARROW: decides that the position distance is |i-j| "
-                "(symmetric store of j-i over all j>i into a zero matrix), "
-                "that the only flow store is skipped exactly on the "
-                "diagonal and beyond the horizon, that the stored flow "
-                "depends on (i,j) only through the row-wise rank, and - by "
-                "a monotonicity analysis of the expression tree under "
-                "checked sign facts - that it is non-increasing in the "
-                "rank.",
-        "design_ref": "DESIGN.md section 4, C20",
-        "note": "Does NOT decide the merging of zero-distance objects, the "
-                "representative index mapping, nor minimality of "
-                "swap_distance (only its index safety, under C13). "
-                "Trusted: scipy.stats.rankdata semantics.",
-        "technique": "structural store/skip rules + dependence (names) "
-                     "analysis + syntax-directed monotonicity analysis",
+        "text": "Decides that the position distance is |i-j| (symmetric "
+                "store of j-i over all j>i into a zero matrix), that the "
+                "only flow store is skipped exactly on the diagonal and "
+                "beyond the horizon, that the stored flow depends on (i,j) "
+                "only through the row-wise average rank minus one, that it "
+                "is non-increasing in the rank with a base >= 1 (linear "
+                "entailment), that swap_distance is n minus the number of "
+                "cycles of the relative permutation (cycle-walk protocol), "
+                "and that from_sequence_and_distance merges zero-distance "
+                "objects into their representative (removal of entry and "
+                "column, index map, re-examination, symmetric rows).",
+        "design_ref": "DESIGN.md section 4, C20 and 10.2",
+        "note": "Does NOT decide the integrality multiplier for half ranks "
+                "(neutral for the clauses above) nor the tag bookkeeping. "
+                "Trusted: scipy.stats.rankdata semantics. D20.5/D20.6 are "
+                "protocol rules over recognised statement shapes: an "
+                "unusual restructuring is reported as not recognised.",
+        "technique": "structural store/loop rules + monotonicity analysis "
+                     "of the expression tree + linear entailment "
+                     "(Fourier-Motzkin) + protocol (typestate) rules over "
+                     "the statement structure",
     },
     "C10": {
         "text": "Decides the clauses of the simulation contract that are "
